@@ -752,16 +752,23 @@ def _load_roi(roi, context):
 
 @saver(VisualAttributes)
 def _save_style(style, context):
-    return dict((a, getattr(style, a)) for a in style._atts)
+    result = dict((a, getattr(style, a)) for a in style.DEFAULT_ATTS
+                  if a != 'preferred_cmap')
+    if style.preferred_cmap is not None:
+        result['preferred_cmap'] = context.do(style.preferred_cmap)
+    return result
 
 
 @loader(VisualAttributes)
 def _load_style(rec, context):
     result = VisualAttributes()
-    if 'preferred_cmap' in result._atts:
-        result._atts.remove('preferred_cmap')
     for attr in result._atts:
-        setattr(result, attr, rec[attr])
+        if attr == 'preferred_cmap':
+            # Not present in files written by older versions
+            if rec.get(attr) is not None:
+                result.preferred_cmap = context.object(rec[attr])
+        else:
+            setattr(result, attr, rec[attr])
     return result
 
 
